@@ -73,11 +73,20 @@ type State struct {
 	unknown []string
 	defers  [][]*ssa.Defer // one frame per active function
 	depth   int
+	// bind maps a parameter (or free variable) of an inlined callee to the
+	// caller's value it was called with, so that identities survive inlining
+	bind map[ssa.Value]ssa.Value
+	// stack of call sites being inlined (innermost last)
+	stack []ssa.Instruction
 }
 
 func (s *State) clone() *State {
 	n := &State{ex: s.ex, env: map[ssa.Value]AVal{}, cells: map[ssa.Value]AVal{}, fields: map[string]AVal{},
-		visits: map[*ssa.BasicBlock]int{}, depth: s.depth}
+		visits: map[*ssa.BasicBlock]int{}, depth: s.depth, bind: map[ssa.Value]ssa.Value{}}
+	for k, v := range s.bind {
+		n.bind[k] = v
+	}
+	n.stack = append([]ssa.Instruction{}, s.stack...)
 	for k, v := range s.env {
 		n.env[k] = v
 	}
@@ -288,10 +297,7 @@ func (e *Explorer) Run(fn *ssa.Function, start *ssa.BasicBlock, pred *ssa.BasicB
 	if e.MaxDepth == 0 {
 		e.MaxDepth = 3
 	}
-	st := &State{ex: e, env: map[ssa.Value]AVal{}, cells: map[ssa.Value]AVal{}, fields: map[string]AVal{}, visits: map[*ssa.BasicBlock]int{}}
-	for k, v := range seed {
-		st.env[k] = v
-	}
+	st := e.NewState(seed)
 	st.defers = [][]*ssa.Defer{nil}
 	var outs []Outcome
 	e.block(fn, start, pred, st, true, func(o Outcome) { outs = append(outs, o) })
@@ -571,8 +577,12 @@ func (e *Explorer) inline(callee *ssa.Function, site ssa.Instruction, c *ssa.Cal
 			params = params[1:]
 		}
 	}
+	if c.IsInvoke() && len(callee.Params) > 0 {
+		st2.bind[callee.Params[0]] = c.Value
+	}
 	for i, p := range params {
 		if i < len(args) {
+			st2.bind[p] = args[i]
 			a := st.Eval(args[i])
 			if a.K != AUnknown {
 				st2.env[p] = a
@@ -581,6 +591,17 @@ func (e *Explorer) inline(callee *ssa.Function, site ssa.Instruction, c *ssa.Cal
 			}
 		}
 	}
+	// a closure's free variables are bound where the closure was made
+	for _, src := range Sources(c.Value) {
+		if mc, ok := src.(*ssa.MakeClosure); ok && mc.Fn == callee {
+			for i, fv := range callee.FreeVars {
+				if i < len(mc.Bindings) {
+					st2.bind[fv] = mc.Bindings[i]
+				}
+			}
+		}
+	}
+	st2.stack = append(st2.stack, site)
 	st2.defers = append(st2.defers, nil)
 	// fresh visit counts for the callee's blocks
 	for _, b := range callee.Blocks {
@@ -592,6 +613,9 @@ func (e *Explorer) inline(callee *ssa.Function, site ssa.Instruction, c *ssa.Cal
 			st3 := o.st.clone()
 			st3.depth--
 			st3.defers = st3.defers[:len(st3.defers)-1]
+			if len(st3.stack) > 0 {
+				st3.stack = st3.stack[:len(st3.stack)-1]
+			}
 			cont(st3, o.Ret)
 		default:
 			emit(o)
@@ -633,12 +657,41 @@ func (r Row) Keys() []string {
 // NewState creates a detached evaluation state (for evaluating single
 // conditions under assumptions).
 func (e *Explorer) NewState(seed map[ssa.Value]AVal) *State {
-	st := &State{ex: e, env: map[ssa.Value]AVal{}, cells: map[ssa.Value]AVal{}, fields: map[string]AVal{}, visits: map[*ssa.BasicBlock]int{}}
+	st := &State{ex: e, env: map[ssa.Value]AVal{}, cells: map[ssa.Value]AVal{}, fields: map[string]AVal{}, visits: map[*ssa.BasicBlock]int{}, bind: map[ssa.Value]ssa.Value{}}
 	for k, v := range seed {
 		st.env[k] = v
 	}
 	return st
 }
+
+// Root maps a value to the value it denotes in the outermost explored
+// function: parameters and free variables of inlined callees are replaced by
+// what they were bound to at the call.
+func (s *State) Root(v ssa.Value) ssa.Value {
+	for i := 0; i < 16; i++ {
+		all := ResolveAll(v)
+		if len(all) != 1 {
+			return v
+		}
+		r := all[0]
+		b, ok := s.bind[r]
+		if !ok {
+			return r
+		}
+		v = b
+	}
+	return v
+}
+
+// SameRoot reports whether a and b denote the same value after mapping
+// inlined parameters back to their arguments.
+func (s *State) SameRoot(a, b ssa.Value) bool {
+	ra, rb := s.Root(a), s.Root(b)
+	return ra == rb || SameValue(ra, rb)
+}
+
+// InlinedAt returns the call sites currently being inlined (outermost first).
+func (s *State) InlinedAt() []ssa.Instruction { return s.stack }
 
 // RunFrom explores fn starting right after instruction `after`.
 func (e *Explorer) RunFrom(fn *ssa.Function, after ssa.Instruction, seed map[ssa.Value]AVal) []Outcome {
